@@ -59,7 +59,7 @@ Definition cyclic (nodes : list string) (es : list edge) : bool :=
    (Replace inherits the requests of a "*" callback), KStarReplace are labels only: nothing is excused
    for them any more. *)
 Inductive kclass := KNone | KSelfTarget | KNamedCycle | KStarUnsat | KStarReplace | KAfterOverwritten | KSelfSilent
-                  | KStaleRequest.
+                  | KStaleRequest | KReplaceRequests.
 
 Definition self_target (live : list entry) : bool :=
   existsb (fun e => (negb (is_none (e_before e)) && String.eqb (e_before e) (e_name e))
@@ -102,6 +102,17 @@ Definition stale_request (r : rstate) : bool :=
                          end
                     end) (r_ghosts r).
 
+(* a callback that carries a Before/After request of its own AND is named by another callback has been
+   Replaced: the plain replacement copy takes over the name, so what the sorter writes for / reads from "the
+   callback of that name" (after.before = c.name, cs[idx].after = c.name) now hits the copy and no longer
+   the entry that holds the requests *)
+Definition replace_requests (live : list entry) : bool :=
+  existsb (fun x =>
+    negb (N.eqb (e_hid x) (e_reg x))
+    && (negb (is_none (e_before x)) || negb (is_none (e_after x)))
+    && existsb (fun c => negb (named (e_name x) c)
+                         && (String.eqb (e_before c) (e_name x) || String.eqb (e_after c) (e_name x))) live) live.
+
 Definition class_of (r : rstate) : kclass :=
   let live := r_live r in
   let nodes := map e_name live in
@@ -111,6 +122,7 @@ Definition class_of (r : rstate) : kclass :=
   else if star_replaced live then KStarReplace
   else if after_overwritten live then KAfterOverwritten
   else if stale_request r then KStaleRequest
+  else if replace_requests live then KReplaceRequests
   else if self_target live then KSelfTarget
   else if cyclic nodes base then KNamedCycle
   else KNone.
